@@ -76,6 +76,10 @@ def _serialize_element(
     if not schema.get("properties", True):
         del schema["properties"]
     if "properties" in schema:
+        schema["properties"] = {
+            prop.source or name: prop
+            for name, prop in schema["properties"].items()
+        }
         explicit = list(schema.get("required", []))
         schema["required"] = explicit + [
             prop.source or name
